@@ -631,6 +631,16 @@ func c19WriteZip(r *rand.Rand, path string, entries c19Set) error {
 		if r.IntN(4) == 0 {
 			hdr.SetMode(gen.Pick(r, []os.FileMode{0o644, 0o755, 0o400}))
 		}
+		// The hash is over names and bytes only: header metadata such as a directory bit on an entry
+		// whose name does not end in a slash must not change what is hashed.
+		if !strings.HasSuffix(e.Name, "/") && r.IntN(8) == 0 {
+			if r.IntN(2) == 0 {
+				hdr.SetMode(os.ModeDir | 0o755)
+			} else {
+				hdr.CreatorVersion = 0
+				hdr.ExternalAttrs = 0x10 // DOS directory attribute
+			}
+		}
 		w, err := zw.CreateHeader(hdr)
 		if err != nil {
 			return err
